@@ -34,7 +34,11 @@ Classification (known findings must be narrow): a life is *tainted "midcmd"* iff
          cycles before link-down or while down.  A violation in a tainted life is reported under the single mechanism
          of that class (detail carries the symptom); violations in clean lives carry the symptom as mechanism.
 Not judged: anything the DUT sends while the link is down; commands already in flight at the rising edge of enable
-         (never happens because of the flush rule); LUP/LXU/LRTY; latency (only the 400 / 500 cycle bounds).
+         (never happens because of the flush rule); LUP/LXU/LRTY; latency (only bounded progress: 120 / 150 / 300 cycles with
+         source.ready high for the advertisement / the probe headers / the final drain).
+Known findings (findings/C38.md): both taint classes fire on the unchanged tree.  After a tainted violation the session is
+         abandoned and the case continues with the next session (fresh power-on state), so clean lives keep being judged.
+         A taint is sticky until a USB reset has been seen with the receiver idle (what the DUT missed stays missed).
 """
 from rv.sim import Bench
 
@@ -62,7 +66,8 @@ ASSUMPTIONS = ["the link stays down >= 24 cycles and until source has been idle 
                "LUP / LXU / LRTY after re-entry are not judged; commands sent while the link is down are not judged"]
 
 READY = [("always",), ("always",), ("random", 0.5), ("random", 0.25), ("bursty", 6, 6), ("bursty", 14, 3), ("random", 0.85)]
-TARGETS = ["lgood", "lgood", "lcrd", "lcrd", "lbad", "lrty", "lup", "lxu", "advert", "advert", "idle", "burst", "burst", "race", "random"]
+TARGETS = ["lgood", "lgood", "lcrd", "lcrd", "lbad", "lbad", "lrty", "lrty", "lup", "lup", "lxu", "lxu", "advert", "advert", "idle",
+           "burst", "burst", "race", "race", "random"]
 
 
 class Holder:
@@ -202,6 +207,15 @@ def provoke(eng, rng, res, target):
             eng.q_profile = ("always",)
         return b.cycle + 2
     if target == "lbad":
+        if m.ignoring and eng.p_lbads:
+            yield from eng.do_retry(0.0, 0.0, react=1)
+            yield from eng.wait_sink_idle(extra=12)
+        if not eng.can_send_new():
+            eng.q_profile = ("always",)
+            n = 0
+            while not eng.can_send_new() and n < 60 and not eng.dead:
+                yield from eng.tick()
+                n += 1
         if eng.can_send_new() and not m.ignoring:
             eng.send_new_header(1.0, 0.0)
             c_end = yield from wait_header_end(eng)
